@@ -12,6 +12,7 @@ package main
 //    route set computed from the statement (oracle).
 
 import (
+	"context"
 	"encoding/json"
 	"fmt"
 	"math/big"
@@ -28,6 +29,14 @@ import (
 	discovery "k8s.io/api/discovery/v1"
 	metav1 "k8s.io/apimachinery/pkg/apis/meta/v1"
 	"k8s.io/apimachinery/pkg/labels"
+	"k8s.io/apimachinery/pkg/runtime"
+	"k8s.io/apimachinery/pkg/types"
+	"sigs.k8s.io/controller-runtime/pkg/client"
+	"sigs.k8s.io/controller-runtime/pkg/client/fake"
+	"sigs.k8s.io/controller-runtime/pkg/reconcile"
+
+	metallbv1beta1 "go.universe.tf/metallb/api/v1beta1"
+	"go.universe.tf/metallb/internal/k8s/controllers"
 
 	"go.universe.tf/metallb/internal/bgp"
 	"go.universe.tf/metallb/internal/bgp/community"
@@ -642,7 +651,11 @@ func vbNewControllerFor(me string, sm *vbSM, ignore bool, disableL2 bool) *contr
 	newBGP = func(controllerConfig) bgp.SessionManager { return sm }
 	defer func() { newBGP = old }()
 	c, err := newController(controllerConfig{MyNode: me, DisableLayer2: disableL2, bgpType: vbBGPType,
-		Logger: log.NewNopLogger(), IgnoreExcludeLB: ignore, BGPAdsChangedCallback: func(string) {}})
+		Logger: log.NewNopLogger(), IgnoreExcludeLB: ignore, BGPAdsChangedCallback: func(k string) {
+			if vbAdsChanged != nil {
+				vbAdsChanged(k)
+			}
+		}})
 	if err != nil {
 		panic(err)
 	}
@@ -851,7 +864,15 @@ type vbEv struct {
 var vbIPs4 = []string{"10.20.30.1", "10.20.30.2", "10.20.30.130", "10.20.31.7"}
 var vbIPs6 = []string{"fc00::1", "fc00::2", "fc00:0:0:1::5"}
 
-func vbSvcName(i int) string { return fmt.Sprintf("ns/s%d", i) }
+// keys of the services; the stack harness uses same-named services in two namespaces
+var vbSvcKeys []string
+
+func vbSvcName(i int) string {
+	if vbSvcKeys != nil {
+		return vbSvcKeys[i]
+	}
+	return fmt.Sprintf("ns/s%d", i)
+}
 
 func vbLabelSet(l [][2]int) map[string]string {
 	m := map[string]string{}
@@ -1167,6 +1188,51 @@ func vbTrunc(ip net.IP, a vbBAdv) vbAd {
 
 func vbPfxKey(a vbAd) string { return fmt.Sprintf("%d/%s/%d", a.Fam, a.Base, a.Len) }
 
+
+// receives the keys bgpController.notifyAdsChanged reports (speaker/main.go turns them into ServiceBGPStatus events)
+var vbAdsChanged func(string)
+
+// the REAL ServiceBGPStatusReconciler on a fake API server (status subresource, and the field index that
+// SetupWithManager registers: "status.serviceName" -> "<ns>/<name>-<node>" from the resource's labels)
+func vbNewStatusReconciler(peers controllers.PeersForService) (*controllers.ServiceBGPStatusReconciler, client.Client) {
+	sch := runtime.NewScheme()
+	if err := metallbv1beta1.AddToScheme(sch); err != nil {
+		panic(err)
+	}
+	if err := v1.AddToScheme(sch); err != nil {
+		panic(err)
+	}
+	fc := fake.NewClientBuilder().WithScheme(sch).WithStatusSubresource(&metallbv1beta1.ServiceBGPStatus{}).
+		WithIndex(&metallbv1beta1.ServiceBGPStatus{}, "status.serviceName", func(o client.Object) []string {
+			l := o.GetLabels()
+			return []string{fmt.Sprintf("%s/%s-%s", l[controllers.LabelServiceNamespace], l[controllers.LabelServiceName], l[controllers.LabelAnnounceNode])}
+		}).Build()
+	pod := &v1.Pod{ObjectMeta: metav1.ObjectMeta{Name: "speaker-x", Namespace: "metallb-system", UID: "0000-verif"}}
+	return &controllers.ServiceBGPStatusReconciler{Client: fc, Logger: log.NewNopLogger(), NodeName: vbNodeNames[0],
+		Namespace: "metallb-system", SpeakerPod: pod, PeersFetcher: peers}, fc
+}
+
+// what is REPORTED: the peers stored in the ServiceBGPStatus of (service, this node); nil if there is none
+func vbStoredStatus(fc client.Client, svc int) ([]int, int) {
+	var l metallbv1beta1.ServiceBGPStatusList
+	if err := fc.List(context.TODO(), &l); err != nil {
+		panic(err)
+	}
+	var res []int
+	n := 0
+	for _, it := range l.Items {
+		if it.Status.ServiceNamespace+"/"+it.Status.ServiceName == vbSvcName(svc) && it.Status.Node == vbNodeNames[0] {
+			n++
+			res = []int{}
+			for _, p := range it.Status.Peers {
+				res = append(res, vbPeerIdx(p))
+			}
+			sort.Ints(res)
+		}
+	}
+	return res, n
+}
+
 func vbRunHistory(out *vOut, id int, kind string, h []vbEv) {
 	sm := &vbSM{}
 	ctl := vbNewController(sm, false, true)
@@ -1175,6 +1241,11 @@ func vbRunHistory(out *vOut, id int, kind string, h []vbEv) {
 	w := &vbWorld{svcs: map[int]vbEv{}}
 	var steps []string
 	failed := false
+	// the status publication: ads-changed notifications -> ServiceBGPStatusReconciler -> stored ServiceBGPStatus
+	changed := map[string]bool{}
+	vbAdsChanged = func(k string) { changed[k] = true }
+	defer func() { vbAdsChanged = nil }()
+	statusRec, statusClient := vbNewStatusReconciler(c.PeersForService)
 	for i, e := range h {
 		switch e.Op {
 		case "set":
@@ -1337,6 +1408,52 @@ func vbRunHistory(out *vOut, id int, kind string, h []vbEv) {
 			}
 			if len(want) > 0 {
 				out.Stat("services_with_peers", 1)
+			}
+		}
+		// what is REPORTED: deliver the notifications to the real status reconciler (twice: its own write re-enqueues the
+		// service) and compare the stored status with the sessions
+		var keys []string
+		for k := range changed {
+			keys = append(keys, k)
+		}
+		sort.Strings(keys)
+		changed = map[string]bool{}
+		for pass := 0; pass < 2; pass++ {
+			for _, k := range keys {
+				parts := strings.SplitN(k, "/", 2)
+				if _, err := statusRec.Reconcile(context.TODO(), reconcile.Request{NamespacedName: types.NamespacedName{Namespace: parts[0], Name: parts[1]}}); err != nil {
+					panic(err)
+				}
+			}
+		}
+		for s := 0; s < 4; s++ {
+			stored, n := vbStoredStatus(statusClient, s)
+			offered := []int{}
+			if ev, ok := w.svcs[s]; ok {
+				mine := map[string]bool{}
+				one := &vbWorld{svcs: map[int]vbEv{s: ev}}
+				for _, q := range []int{0, 1, 2, 9} {
+					for _, a := range vbIntended(one, q) {
+						mine[vbPfxKey(a)] = true
+					}
+				}
+				for pn, got := range o.Sess {
+					for _, a := range got {
+						if mine[vbPfxKey(a)] {
+							offered = append(offered, pn)
+							break
+						}
+					}
+				}
+			}
+			sort.Ints(offered)
+			out.Stat("status_checks", 1)
+			if len(stored) > 1 {
+				out.Stat("status_with_several_peers", 1)
+			}
+			if n > 1 || (len(offered) == 0) != (stored == nil) || (stored != nil && fmt.Sprint(stored) != fmt.Sprint(offered)) {
+				fail("bgp-status-differs-from-sessions",
+					fmt.Sprintf("ServiceBGPStatus of s%d on this node reports peers %v (%d resources); the peers whose session holds one of its prefixes are %v", s, stored, n, offered))
 			}
 		}
 		// sessions closed by this event
